@@ -4,6 +4,10 @@ import json, os
 HERE = os.path.dirname(os.path.dirname(os.path.abspath(__file__)))
 
 CHECKS = {
+ 'C08': dict(level='exploration', ref='3/C08',
+   technique='seeded insert/pop/copy/clear histories on SelectorMap and its copies against a naive dict+suffix model queried exhaustively after every operation; registration histories at API level with every spelling pushed through 8 API paths after every registration',
+   text='Part A: after every operation every dotted suffix of every name ever used is looked up on every live map (exact-match precedence, single match, ambiguity error, unknown, get/in/len/items), minimal_selector must equal the shortest suffix that resolves back, and operations on a copy must not change any answer of the original. Part B: after every registration each spelling is used through bind (string/tuple), query, get_bindings, get_configurable (plain/scoped), @references; unique spellings must address one key / one configurable, ambiguous and unknown ones must raise, and two finalize hooks returning one parameter under two spellings must conflict. No schedule or I/O is involved (stated in DESIGN 3/C08): the simulated facet is the operation history.',
+   note='Sampled histories over components {a,b,c}, names up to 4 components, up to 4 live maps.'),
  'C05': dict(level='exploration', ref='3/C05',
    technique='seeded multi-parse / multi-file histories (simulated files with includes) of macro definitions and uses in every relative order, constants over shared dotted suffixes, finalize as an operation; model of the latest macro bindings as oracle at every call',
    text='Macro definitions (literal, @producer(), %other, containers) and uses at any nesting are spread over several parse_config calls (skip_unknown False/True/list) and over included simulated files; every consumer call is compared with the model\'s latest bindings at call time, producers must run once per use, %constant must deliver the very object under every unambiguous abbreviation (ambiguous, invalid and duplicate definitions are errors), and finalize (root or under an active scope) must reject exactly the configurations with an unbound or unevaluated macro reference.',
